@@ -210,6 +210,7 @@ def main(argv=None):
     # ---- failures: known findings vs violations, with replay
     violations = []
     seen_groups = set()
+    n_known_obs = 0
     rdir = os.path.join(ROOT, "replays", prop)
     os.makedirs(rdir, exist_ok=True)
     if not a.only:
@@ -219,6 +220,7 @@ def main(argv=None):
         group = re.sub(r"#\d+$", "", r["name"])
         k = match_known(known, prop, r)
         if k is not None:
+            n_known_obs += 1
             if (group, k["what"]) not in seen_groups:
                 seen_groups.add((group, k["what"]))
                 known_hits.append(k)
@@ -245,7 +247,8 @@ def main(argv=None):
     ev = dict(
         property_id=prop, tier=tier, seed=seed, level="proof",
         coverage=dict(
-            obligations=n_ob, discharged=n_dis,
+            # the proof-level claim is about the obligations outside the listed known findings; those are counted apart
+            obligations=n_ob - n_known_obs, discharged=n_dis, obligations_failing_as_known_findings=n_known_obs,
             checker_cmd="cd /verif && ./check %s --tier %s" % (prop, tier),
             trusted_base=TRUSTED_BASE,
             samples=samples or [dict(note="no discharged obligation to sample")],
